@@ -801,7 +801,7 @@ EVIDENCE = {"C07": {
                             "obspy's miniSEED / SAC / GCF decoders, the stdlib text I/O stack"],
                    "stub": ["the storage device (SimFS); obspy.read is handed io.BytesIO(bytes read through SimFS)",
                             "the recorder: obspy's writers (binary formats) and my encoders (SAF, MiniShark, PEER)"]},
-    "assumptions": ["obspy's writers are the recorder for miniSEED/SAC/GCF; a defect mirrored by obspy's reader is invisible",
+    "assumptions": ["excluded: PEER horizontals that are anti-parallel but not tied (000/180), negative NORTH_ROT, read() argument lists shorter than the list of recordings, obspy's microsecond rounding of the SAC time step (the expected dt is obspy's own decode), in-memory streams through the trial-and-error dispatcher", "obspy's writers are the recorder for miniSEED/SAC/GCF; a defect mirrored by obspy's reader is invisible",
                     "SAF: vertical is CH0 (format specification); NORTH_ROT is judged for north-first files only",
                     "PEER numeric azimuth codes are generated right-handed with the north-ish code within 45 degrees of north",
                     "under torn/flipped/dropped bytes the outcome may be an error or exactly the independent decode of the surviving bytes; "
